@@ -13,6 +13,7 @@ import (
 	"github.com/sarchlab/mgpusim/v4/amd/driver"
 
 	"verifharness/vlib"
+	"verifharness/vlib/drvkit"
 )
 
 // canonical histories do not depend on the seed.
@@ -121,12 +122,32 @@ func runScenario(rec vlib.Recorder, sc *scenario) {
 		"steps": len(w.done), "processes": len(w.pids), "peak_live_pages": w.peakLive, "first_ops": w.done[:min(6, len(w.done))]})
 }
 
-func replay(c *vlib.Check, path string) {
-	b, err := os.ReadFile(path)
-	if err != nil {
-		fmt.Println("cannot read replay:", err)
-		os.Exit(2)
+// observeUnjudged records behaviours the property text does not decide
+// (DESIGN.md C10: "reported as observed, not judged").
+func observeUnjudged(rec vlib.Recorder) {
+	P := uint64(4096)
+	rig := drvkit.NewRig(drvkit.Options{Log2Page: 12, GPUs: []driver.DeviceProperties{{CUCount: 4, DRAMSize: 16 * P}, {CUCount: 4, DRAMSize: 16 * P}}})
+	d := rig.Driver
+	pv, _ := call(func() {
+		ctx := d.Init()
+		uid := d.CreateUnifiedGPU(ctx, []int{1, 2})
+		p := d.AllocateMemory(ctx, 2*P)
+		d.Remap(ctx, uint64(p), 2*P, uid)
+		if pg, ok := rig.PageTable.Find(ctx.VerifPID(), uint64(p)); ok && int(pg.DeviceID) == uid {
+			rec.Count("observed_remap_to_unified_device_records_the_unified_id", 1)
+		}
+		q := d.AllocateUnifiedMemory(ctx, 3*P) // placed on GPU 1
+		ret := d.Distribute(ctx, q, 3*P, []int{2})
+		if pg, ok := rig.PageTable.Find(ctx.VerifPID(), uint64(q)); ok && pg.DeviceID == 1 && len(ret) == 1 && ret[0] == 3*P {
+			rec.Count("observed_distribute_to_one_gpu_leaves_pages_in_place", 1)
+		}
+	})
+	if pv != nil {
+		rec.Count("observed_unjudged_probe_panicked", 1)
 	}
+}
+
+func replay(c *vlib.Check, b []byte) {
 	var f struct {
 		Witness struct {
 			Scenario scenario `json:"scenario"`
@@ -143,17 +164,33 @@ func replay(c *vlib.Check, path string) {
 }
 
 func main() {
-	c := vlib.Start("C10")
+	// read a replay file before vlib.Start, which removes stale replay files
+	// of the same (tier, seed)
+	var replayData []byte
 	for i, a := range os.Args {
 		if a == "--replay" && i+1 < len(os.Args) {
-			replay(c, os.Args[i+1])
+			b, err := os.ReadFile(os.Args[i+1])
+			if err != nil {
+				fmt.Println("cannot read replay:", err)
+				os.Exit(2)
+			}
+			replayData = b
+		}
+	}
+	c := vlib.Start("C10")
+	{
+		if replayData != nil {
+			replay(c, replayData)
 			c.Finish(vlib.FinishOpts{Rule: "replay of one recorded history", MinNontrivial: 0})
 		}
 	}
-	nDefault := c.N(1600, 24000)
-	nBuddy := c.N(400, 6000)
+	nDefault := c.N(1600, 16000)
+	nBuddy := c.N(400, 4000)
 	nEngine := c.N(60, 600)
 	steps := c.N(80, 240)
+	if os.Getenv("C10_ONLY_CANONICAL") != "" { // debugging aid: the seed-independent battery alone
+		nDefault, nBuddy, nEngine = 0, 0, 0
+	}
 
 	var def, bud []*scenario
 	for _, sc := range canonical() {
@@ -176,6 +213,7 @@ func main() {
 	// The allocator kind is a process-global switch read when a device is
 	// created: two phases.
 	driver.VerifUseBuddyAllocator(false)
+	observeUnjudged(c)
 	vlib.Parallel(len(def), 0, func(i int) { runScenario(c, def[i]) })
 	driver.VerifUseBuddyAllocator(true)
 	vlib.Parallel(len(bud), 0, func(i int) { runScenario(c, bud[i]) })
